@@ -14,14 +14,15 @@ namespace SwayVerif.C24
 open SwayVerif.LspSched
 
 /-- (a), general form: if `wait_for_parsing` creates its `Notified` before checking the flags,
-`did_open` raises `is_compiling` before sending, and the client opens a document first, then in a
-quiescent state (worker in `recv`, channel empty, no handler able to move) nobody is still waiting
+`did_open` raises `is_compiling` before sending but after its fallible look-ups (a handler may
+return an error there, before it has queued anything: `hInit`/`fail`), and the client first opens a
+document of a valid project, then in a quiescent state (worker in `recv`, channel empty, no handler able to move) nobody is still waiting
 for a notification. -/
 theorem C24_no_stuck_waiter_cfg {c : Cfg} {s : State} (hc1 : c.notifiedFirst = true)
-    (hc2 : c.openStoreFirst = true) (hc3 : c.openedFirst = true)
+    (hc2 : c.openStoreFirst = true) (hc3 : c.openedFirst = true) (hc4 : c.openStoreEarly = false)
     (hr : Reachable c s) (q : Quiescent s) : ∀ i, ¬ Waiting s i := by
   rintro i ⟨sn, hi⟩
-  have inv := reach_invA hc1 hc2 hc3 hr
+  have inv := reach_invA hc1 hc2 hc3 hc4 hr
   have hq := q.2.2 i
   rw [hi] at hq
   have hsn : sn = s.nw := by simpa [HPc.quiet] using hq
@@ -35,7 +36,7 @@ theorem C24_no_stuck_waiter_cfg {c : Cfg} {s : State} (hc1 : c.notifiedFirst = t
 returned once no compilation is running or pending. -/
 theorem C24_no_stuck_waiter {s : State} (hr : Reachable Cfg.fixed s) (q : Quiescent s) :
     ∀ i, ¬ Waiting s i :=
-  C24_no_stuck_waiter_cfg rfl rfl rfl hr q
+  C24_no_stuck_waiter_cfg rfl rfl rfl rfl hr q
 
 /-- (b), general form: if the worker resets `retrigger_compilation` when it picks a request up, then
 in a quiescent state the last compilation that ran to completion read the latest document version
@@ -70,7 +71,7 @@ thread interleaves freely. They are replayed on the real server by `harness/src/
 open Act WLabel HLabel in
 /-- A full, undisturbed `did_open` (handler `i`) with its compilation. -/
 def openRound (i : Nat) : List Act :=
-  [h i (spawn .open), h i loadIc, h i isFull, h i send, h i HLabel.setIc,
+  [h i (spawn .open true), h i lookup, h i loadIc, h i isFull, h i send, h i HLabel.setIc,
    w recv, w WLabel.setIc, w start, w chk, w read, w finish, w (lsDone true), w clrIc, w clrRt, w isEmpty,
    w notify, h i pLoadIc, h i readLs, h i pIsEmpty]
 
@@ -79,16 +80,16 @@ open Act WLabel HLabel in
 `notify_waiters()`, only then the waiter creates its `Notified`. -/
 def schedLostWakeup : List Act :=
   openRound 0 ++
-  [h 1 (spawn .change), h 1 write, h 1 loadIc, h 1 isFull, h 1 send,
+  [h 1 (spawn .change true), h 1 lookup, h 1 write, h 1 loadIc, h 1 isFull, h 1 send,
    w recv, w WLabel.setIc, w start, w chk,
-   h 2 (spawn .wait), h 2 pLoadIc,
+   h 2 (spawn .wait true), h 2 pLoadIc,
    w read, w finish, w (lsDone true), w clrIc, w clrRt, w isEmpty, w notify,
    h 2 snap]
 
 open Act WLabel HLabel in
 /-- `did_open` stores `is_compiling = true` after the worker has already finished the request. -/
 def schedLateStore : List Act :=
-  [h 0 (spawn .open), h 0 loadIc, h 0 isFull, h 0 send,
+  [h 0 (spawn .open true), h 0 lookup, h 0 loadIc, h 0 isFull, h 0 send,
    w recv, w WLabel.setIc, w start, w chk, w read, w finish, w (lsDone true), w clrIc, w clrRt, w isEmpty,
    w notify,
    h 0 HLabel.setIc, h 0 pLoadIc, h 0 snap]
@@ -99,10 +100,10 @@ resets both flags, then the handler stores `retrigger = true` and sends: the com
 aborts at its first check point. -/
 def schedStaleRetrigger : List Act :=
   openRound 0 ++
-  [h 1 (spawn .save), h 1 loadIc, h 1 isFull, h 1 send,
+  [h 1 (spawn .save true), h 1 lookup, h 1 loadIc, h 1 isFull, h 1 send,
    w recv, w WLabel.setIc, h 1 pLoadIc, h 1 snap,
    w start, w chk, w read, w finish, w (lsDone true),
-   h 2 (spawn .change), h 2 write, h 2 loadIc,
+   h 2 (spawn .change true), h 2 lookup, h 2 write, h 2 loadIc,
    w clrIc, w clrRt, w isEmpty, w notify,
    h 2 storeRt, h 2 isFull, h 2 send,
    w recv, w WLabel.setIc, w start, w chk, w lsAbort, w clrIc, w clrRt, w isEmpty, w notify,
@@ -113,8 +114,8 @@ open Act WLabel HLabel in
 arrives before the worker has dequeued the request set `retrigger`, drain the queue and send; the
 only compilation aborts and nothing is ever compiled. -/
 def schedOpenThenChange : List Act :=
-  [h 0 (spawn .open), h 0 loadIc, h 0 isFull, h 0 send, h 0 HLabel.setIc, h 0 pLoadIc, h 0 snap,
-   h 1 (spawn .change), h 1 write, h 1 loadIc, h 1 storeRt, h 1 isFull, h 1 tryRecv, h 1 tryRecv, h 1 send,
+  [h 0 (spawn .open true), h 0 lookup, h 0 loadIc, h 0 isFull, h 0 send, h 0 HLabel.setIc, h 0 pLoadIc, h 0 snap,
+   h 1 (spawn .change true), h 1 lookup, h 1 write, h 1 loadIc, h 1 storeRt, h 1 isFull, h 1 tryRecv, h 1 tryRecv, h 1 send,
    w recv, w WLabel.setIc, w start, w chk, w lsAbort, w clrIc, w clrRt, w isEmpty, w notify,
    h 0 wake, h 0 pLoadIc, h 0 readLs, h 0 pIsEmpty]
 
@@ -122,7 +123,7 @@ open Act HLabel in
 /-- Without `openedFirst`: a request arrives before any `did_open`; `last_compilation_state` is
 `Uninitialized` and nothing will ever notify. -/
 def schedNotOpened : List Act :=
-  [h 0 (spawn .wait), h 0 snap, h 0 pLoadIc, h 0 readLs]
+  [h 0 (spawn .wait true), h 0 snap, h 0 pLoadIc, h 0 readLs]
 
 def stuckEnd (t : State) : Bool := quiescentB t && decide (0 < waitingB t)
 def lostEnd (t : State) : Bool := quiescentB t && decide (t.lastDone ≠ t.latest)
@@ -163,6 +164,25 @@ theorem C24_orig_lost_edit :
 theorem C24_orig_lost_edit_open_then_change :
     ∃ s, Reachable Cfg.orig s ∧ Quiescent s ∧ s.lastDone ≠ s.latest := lost_witness openThenChange_lost
 
+open Act WLabel HLabel in
+/-- Seeded mutant: `did_open` stores `is_compiling = true` before its fallible look-ups. A `did_open`
+of a file outside any project returns its error after the store; nothing is queued, nothing ever
+resets the flag, the next request waits forever. -/
+def schedEarlyStore : List Act :=
+  [h 0 (spawn .open true), h 0 HLabel.setIc, h 0 lookup, h 0 loadIc, h 0 storeRt, h 0 isFull, h 0 send,
+   h 0 snap, h 0 pLoadIc,
+   w recv, w WLabel.clrRt, w WLabel.setIc, w start, w chk, w read, w finish, w (lsDone true), w clrIc, w isEmpty,
+   w notify, h 0 wake, h 0 snap, h 0 pLoadIc, h 0 readLs, h 0 pIsEmpty,
+   h 1 (spawn .open false), h 1 HLabel.setIc, h 1 fail,
+   h 2 (spawn .wait true), h 2 snap, h 2 pLoadIc]
+
+/-- Storing `is_compiling` before a point where the handler can return early violates (a). -/
+theorem C24_early_store_stuck :
+    ∃ s, Reachable { Cfg.fixed with openStoreEarly := true } s ∧ Quiescent s ∧ ∃ i, Waiting s i :=
+  stuck_witness (by decide : checkRun { Cfg.fixed with openStoreEarly := true } schedEarlyStore stuckEnd = true)
+
+example : coopOk { Cfg.fixed with openStoreEarly := true } init none schedEarlyStore = true := by decide
+
 /-- The protocol assumption `openedFirst` is needed for (a), even for the repaired code. -/
 theorem C24_openedFirst_needed :
     ∃ s, Reachable { Cfg.fixed with openedFirst := false } s ∧ Quiescent s ∧ ∃ i, Waiting s i :=
@@ -173,12 +193,13 @@ theorem C24_openedFirst_needed :
 open Act WLabel HLabel in
 /-- `did_open`, then a `did_change` cancelling the running compilation, on the repaired code. -/
 def schedFixedRun : List Act :=
-  [h 0 (spawn .open), h 0 HLabel.setIc, h 0 loadIc, h 0 storeRt, h 0 isFull, h 0 send, h 0 snap, h 0 pLoadIc,
+  [h 0 (spawn .open true), h 0 lookup, h 0 HLabel.setIc, h 0 loadIc, h 0 storeRt, h 0 isFull, h 0 send, h 0 snap, h 0 pLoadIc,
    w recv, w WLabel.clrRt, w WLabel.setIc, w start, w chk, w read,
-   h 1 (spawn .change), h 1 write, h 1 loadIc, h 1 storeRt, h 1 isFull, h 1 send,
+   h 1 (spawn .change true), h 1 lookup, h 1 write, h 1 loadIc, h 1 storeRt, h 1 isFull, h 1 send,
    w chk, w lsAbort, w clrIc, w isEmpty,
    w recv, w WLabel.clrRt, w WLabel.setIc, w start, w chk, w read, w finish, w (lsDone true), w clrIc, w isEmpty,
-   w notify, h 0 wake, h 0 snap, h 0 pLoadIc, h 0 readLs, h 0 pIsEmpty]
+   w notify, h 0 wake, h 0 snap, h 0 pLoadIc, h 0 readLs, h 0 pIsEmpty,
+   h 2 (spawn .open false), h 2 fail, h 3 (spawn .wait true), h 3 snap, h 3 pLoadIc, h 3 readLs, h 3 pIsEmpty]
 
 example : ∃ s, Reachable Cfg.fixed s ∧ Quiescent s ∧ s.latest = 1 ∧ s.lastDone = 1 ∧ s.nw = 1 := by
   have h : checkRun Cfg.fixed schedFixedRun
